@@ -123,8 +123,13 @@ def make_handler(rec, pair, outcome_of):
             _x, name, i = outcome.split(":")
             raise exception_classes()[name](*EXC_ARGS[int(i)])
         raise AssertionError(outcome)
-    handler.__name__ = f"route_{pair[0]}_{pair[1]}"
+    # route functions are told apart by what they are, not by what they are called: every second table is
+    # registered with functions that all bear the same name (two modules each defining `handle`, say)
+    handler.__name__ = f"route_{pair[0]}_{pair[1]}" if NAMING[0] == "distinct" else "handle"
     return handler
+
+
+NAMING = ["distinct"]
 
 
 def make_request(pair, idx, shape="full"):
@@ -143,6 +148,7 @@ def make_request(pair, idx, shape="full"):
 
 
 def fresh_app(table):
+    NAMING[0] = "same" if (len(table) + sum(p[1] for p in table)) % 2 else "distinct"
     app, workers = inproc.make_bromelia(["s6a", "gx"])
     rec = Recorder()
     current = {"outcome": None}
